@@ -1,11 +1,11 @@
 package main
 
 import (
+	"bytes"
 	"fmt"
 	"os"
 
 	"github.com/CloudyKit/jet/v6"
-	"github.com/CloudyKit/jet/v6/utils"
 )
 
 func main() {
@@ -21,11 +21,12 @@ func main() {
 		func() {
 			defer func() {
 				if e := recover(); e != nil {
-					fmt.Printf("%q: WALK PANIC %v\n", src, e)
+					fmt.Printf("%q: EXECUTE PANIC %v\n", src, e)
 				}
 			}()
-			utils.Walk(t, utils.VisitorFunc(func(vc utils.VisitorContext, n jet.Node) { vc.Visit(n) }))
-			fmt.Printf("%q: ok\n", src)
+			var b bytes.Buffer
+			err := t.Execute(&b, nil, map[string]interface{}{"x": 1})
+			fmt.Printf("%q: out=%q err=%v\n", src, b.String(), err)
 		}()
 	}
 }
